@@ -406,6 +406,10 @@ def judge_validate(c):
         verdict, what = "violates", "outputs produced together with the error"
     elif ex and ex.get("shapes") != expected_shapes:
         verdict, what = "violates", f"introspection reports {ex.get('shapes')} but the declaration is {expected_shapes}"
+    elif ex and "shapes_again" in ex and ex.get("shapes_again") != expected_shapes:
+        verdict, what = "violates", f"after the caller wrote into the reported shapes, introspection reports {ex.get('shapes_again')} for the declaration {expected_shapes}"
+    elif ex and "names" in ex and ex.get("names") != [v["name"] for v in g.get("inputs") or []]:
+        verdict, what = "violates", f"input names reported as {ex.get('names')}"
     key = ("validate", c.get("stream"), len(g.get("inputs") or []), why, impl["status"],
            tuple(len(v.get("dims") or []) for v in g.get("inputs") or []))
     return J(corr=corr, verdict=verdict, tag="validate" if verdict == "violates" else None, what=what, key=key)
